@@ -228,10 +228,31 @@ def project_commands(run):
     body_started, proceeded, first_line, run_id = [], set(), "", 0
     inited = set()
     cancelled_nodes = set()
+    ended_blocks = set()
+
+    def ancestors(nid):
+        out, cur, seen = [], nodes.get(nid, {}).get("parent", ""), set()
+        while cur and cur in nodes and cur not in seen:
+            seen.add(cur)
+            out.append(cur)
+            cur = nodes[cur].get("parent", "")
+        return out
+
+    def orphan_prone(nid):
+        """under a Watch/Alarm that is itself nested in an Alarm or Macro body (recorded finding: its interrupt outlives the reset)"""
+        chain = [nid] + ancestors(nid)
+        for i, a in enumerate(chain):
+            if nodes.get(a, {}).get("cls") in ("WatchNode", "AlarmNode") and \
+                    any(nodes.get(b, {}).get("cls") in ("AlarmNode", "MacroNode") for b in chain[i + 1:]):
+                return True
+        return False
+
     for e in run["events"]:
         k = e["e"]
         if k == "init":
             inited.add(e["inst"])
+        if k == "flag" and e["f"] == "block_ended":
+            (ended_blocks.add if e["new"] == "True" else ended_blocks.discard)(e["n"])
         if k == "flag" and e["f"] == "cancelled":
             (cancelled_nodes.add if e["new"] == "True" else cancelled_nodes.discard)(e["n"])
         if k == "prog":
@@ -239,7 +260,9 @@ def project_commands(run):
         elif k == "item":
             items[e["id"]] = e
         elif k in ("init", "exec", "finalize"):
-            out.append({"e": k, "name": e["name"], "inst": e["inst"], "t": e["t"]})
+            node = items.get(e["inst"], {}).get("node", "")
+            out.append({"e": k, "name": e["name"], "inst": e["inst"], "t": e["t"],
+                        "site": "@under-interrupt-nested-in-repeated-body" if orphan_prone(node) else ""})
         elif k == "flag":
             n = e["n"]
             if e["f"] == "started" and e["new"] == "True":
@@ -283,6 +306,8 @@ def project_commands(run):
                 kind = "unknown-item"
             else:
                 kind = "other"
+            if kind in ("threshold", "wait", "watch", "alarm") and (set(ancestors(node)) & ended_blocks):
+                kind += "-in-ended-block"            # its block has ended: nothing is left that could proceed
             out.append({"e": "req", "k": e["k"], "item": e["item"], "node": node, "offered": bool(e.get("offered")),
                         "res": "ok" if e["res"] == "ok" else "rejected", "unchanged": bool(e.get("unchanged", True)),
                         "kind": kind, "target": e["item"], "runId": run_id, "t": e["t"]})
